@@ -211,6 +211,154 @@ func (f *cacheFrame) findRebuilt() {
 	}
 }
 
+// perCell: the cache is indexed [row][column] (its element is an unnamed slice), so it depends on the column layout
+func (f *cacheFrame) perCell(field string) bool {
+	for v := range f.t {
+		t := v.Type()
+		if p, ok := t.Underlying().(*types.Pointer); ok {
+			t = p.Elem()
+		}
+		st, ok := t.Underlying().(*types.Struct)
+		if !ok {
+			continue
+		}
+		for i := 0; i < st.NumFields(); i++ {
+			if st.Field(i).Name() == field {
+				if sl, ok := st.Field(i).Type().(*types.Slice); ok {
+					_, inner := sl.Elem().(*types.Slice)
+					return inner
+				}
+				return false
+			}
+		}
+	}
+	return false
+}
+
+// headerExtended: the new header is the old one with fields appended — append(view.Header, …) directly, or the
+// result of a helper that is given view.Header and returns append(<that parameter>, …) on every path: the columns
+// that existed keep their positions
+func (f *cacheFrame) headerExtended(v ssa.Value) bool {
+	appendOf := func(v ssa.Value, base func(ssa.Value) bool) bool {
+		ok := false
+		for _, o := range core.Origins(v, false) {
+			call, isCall := o.(*ssa.Call)
+			if !isCall {
+				return false
+			}
+			b, isB := call.Call.Value.(*ssa.Builtin)
+			if !isB || b.Name() != "append" || !base(call.Call.Args[0]) {
+				return false
+			}
+			ok = true
+		}
+		return ok
+	}
+	ownHeader := func(x ssa.Value) bool { return f.prefixOf(x, "Header") }
+	if appendOf(v, ownHeader) {
+		return true
+	}
+	call, idx, ok := core.ExtractOf(v)
+	if !ok {
+		return false
+	}
+	g := call.Common().StaticCallee()
+	if g == nil || g.Blocks == nil {
+		return false
+	}
+	for i, a := range call.Common().Args {
+		if !ownHeader(a) || i >= len(g.Params) {
+			continue
+		}
+		param := g.Params[i]
+		rets := core.Returns(g)
+		all := len(rets) > 0
+		for _, r := range rets {
+			if idx >= len(r.Results) || !appendOf(r.Results[idx], func(x ssa.Value) bool { return x == ssa.Value(param) }) {
+				all = false
+			}
+		}
+		if all {
+			return true
+		}
+	}
+	return false
+}
+
+// replacesHeader: the function stores a new Header into the tracked view
+func (f *cacheFrame) replacesHeader() bool {
+	for _, b := range f.fn.Blocks {
+		for _, in := range b.Instrs {
+			if st, ok := in.(*ssa.Store); ok {
+				if name, ok := f.fieldAddr(st.Addr); ok && name == "Header" && !f.prefixOf(st.Val, "Header") && !f.headerExtended(st.Val) {
+					return true
+				}
+			}
+		}
+	}
+	return false
+}
+
+// carriesOldEntries: v is assembled (append / phi / slicing) from element loads of view.<field>
+func (f *cacheFrame) carriesOldEntries(v ssa.Value, field string, seen map[ssa.Value]bool) bool {
+	if v == nil || seen[v] {
+		return false
+	}
+	seen[v] = true
+	switch x := v.(type) {
+	case *ssa.Phi:
+		for _, e := range x.Edges {
+			if f.carriesOldEntries(e, field, seen) {
+				return true
+			}
+		}
+	case *ssa.Slice:
+		return f.carriesOldEntries(x.X, field, seen)
+	case *ssa.UnOp:
+		if x.Op == token.MUL {
+			if ia, ok := x.X.(*ssa.IndexAddr); ok && f.prefixOf(ia.X, field) {
+				return true
+			}
+			if al, ok := x.X.(*ssa.Alloc); ok {
+				vals, _ := core.StoresTo(al)
+				for _, s := range vals {
+					if f.carriesOldEntries(s, field, seen) {
+						return true
+					}
+				}
+			}
+			if fv, ok := x.X.(*ssa.FreeVar); ok {
+				vals, _ := core.StoresTo(fv)
+				for _, s := range vals {
+					if f.carriesOldEntries(s, field, seen) {
+						return true
+					}
+				}
+			}
+		}
+	case *ssa.Call:
+		if b, ok := x.Call.Value.(*ssa.Builtin); ok && b.Name() == "append" {
+			for _, a := range x.Call.Args {
+				if f.carriesOldEntries(a, field, seen) {
+					return true
+				}
+			}
+		}
+	case *ssa.Alloc:
+		// the backing array of a variadic append: its element stores
+		for _, r := range *x.Referrers() {
+			if ia, ok := r.(*ssa.IndexAddr); ok {
+				for _, rr := range *ia.Referrers() {
+					if st, ok := rr.(*ssa.Store); ok && st.Addr == ia && f.carriesOldEntries(st.Val, field, seen) {
+						return true
+					}
+				}
+			}
+		}
+	}
+	return false
+}
+
 func (f *cacheFrame) fieldAddr(v ssa.Value) (string, bool) {
 	fa, ok := v.(*ssa.FieldAddr)
 	if !ok || !f.t[fa.X] {
@@ -382,9 +530,22 @@ func (f *cacheFrame) transfer(in ssa.Instruction, st cacheVec, depth int, record
 						}
 					} else if _, ok := x.Val.(*ssa.MakeSlice); ok {
 						st[ci] = cacheSt{k: csAligned}
+					} else if f.perCell(name) && f.replacesHeader() && f.carriesOldEntries(x.Val, name, map[ssa.Value]bool{}) {
+						// entries of the old per-cell cache are kept although the function re-lays the columns: entry [i][c]
+						// belongs to the cell that was at column c before
+						st[ci] = cacheSt{k: csStale, why: "entries of the old " + name + " carried over at " + pos + " although the function replaces the Header (columns re-laid)"}
 					} else {
 						// a cache built some other way (merged, copied): taken to be built for the rows it is stored with
 						st[ci] = cacheSt{k: csAligned}
+					}
+				}
+				return st
+			}
+			if name == "Header" && !f.prefixOf(x.Val, "Header") && !f.headerExtended(x.Val) {
+				// the columns are re-laid: a per-cell cache (indexed [row][column]) no longer describes the cells
+				for ci, cn := range a.fields {
+					if f.perCell(cn) && st[ci].k != csNil {
+						st[ci] = cacheSt{k: csStale, why: "Header replaced at " + pos + " (columns re-laid) while " + cn + " was kept"}
 					}
 				}
 				return st
